@@ -897,6 +897,7 @@ struct C01 : World {
     std::vector<Line> pending;
     double ts = 0; int ts_mode = 0; int ts_val = 0; double ts_step = 0.04;
     int frame_max = 8;
+    bool refetch_stale = true;
     int frames = 0;
     std::set<int> keys;       // distinct (pgno, subcode) transmitted
     int64_t extra_pages = 0;  // allowance for pages created by faults / random lines
@@ -1152,8 +1153,8 @@ struct C01 : World {
   // see AVOID_STALE_PAGE_POINTERS
   static bool refresh(int sl) {
     St& s = *g;
-#if AVOID_STALE_PAGE_POINTERS
-    if (!s.slot_cc[sl] && s.slot_frame[sl] != s.frames) {
+    // run-time switch: plan knob refetch_stale (default AVOID_STALE_PAGE_POINTERS); the known finding's own replay sets it to 0
+    if (s.refetch_stale && !s.slot_cc[sl] && s.slot_frame[sl] != s.frames) {
       vbi_bool ok;
       budget_begin("vbi_fetch_vt_page", 30000000);
       { SutScope ss; ok = vbi_fetch_vt_page(s.dec, s.slot[sl], s.slot_args[sl][0], s.slot_args[sl][1], (vbi_wst_level)s.slot_args[sl][2], s.slot_args[sl][3], s.slot_args[sl][4]); }
@@ -1163,7 +1164,6 @@ struct C01 : World {
       s.ctx->count("refetch_stale_page");
       return ok;
     }
-#endif
     (void)s; (void)sl;
     return true;
   }
@@ -1363,6 +1363,7 @@ struct C01 : World {
     g_in_run = true; g_nheld = 0; g_sim_now = 1.0e9;
     st.ts = 1.0e9; st.ts_step = (double)(plan.knob("ts_step_us", 40000) % 60000) / 1e6; if (st.ts_step <= 0) st.ts_step = 0.04;
     st.frame_max = (int)(uabs(plan.knob("frame_max", 8)) % 41); if (st.frame_max < 1) st.frame_max = 1;
+    st.refetch_stale = plan.knob("refetch_stale", AVOID_STALE_PAGE_POINTERS) != 0;
     Layout L;
     L.gpop = (int)(uabs(plan.knob("gpop", 0x1EA)) % 0x900); L.pop[0] = (int)(uabs(plan.knob("pop0", 0x1EB)) % 0x900); L.pop[1] = (int)(uabs(plan.knob("pop1", 0x1EC)) % 0x900);
     L.gdrcs = (int)(uabs(plan.knob("gdrcs", 0x1ED)) % 0x900); L.drcs[0] = (int)(uabs(plan.knob("drcs0", 0x1EE)) % 0x900); L.drcs[1] = (int)(uabs(plan.knob("drcs1", 0x1EF)) % 0x900);
